@@ -192,6 +192,7 @@ type World struct {
 }
 
 type lockKey struct {
+	orca  string
 	multi bool
 	conc  uint8
 }
@@ -199,20 +200,31 @@ type lockKey struct {
 var (
 	lockMu    sync.Mutex
 	lockSlots = map[lockKey]uint32{}
-	lockConst = map[lockKey]orcas.OrcaConst{}
+	lockMain  = map[lockKey]orcas.OrcaConst{}
 )
 
-// lockedConsts returns (and caches per process: rend allows only ~1000 lock sets) the locking
-// wrappers for the main and batch port sharing one lock set.
-func lockedConsts(multi bool, conc uint8) (slot uint32) {
+// lockedMain returns (and caches per process: rend allows only ~1000 lock sets) the locking
+// wrapper of the main port, built with orcas.Locked exactly as app/memproxy.go does, and its lock
+// set id, which the batch port attaches to with orcas.LockedWithExisting.
+func lockedMain(orca string, multi bool, conc uint8) (orcas.OrcaConst, uint32) {
 	lockMu.Lock()
 	defer lockMu.Unlock()
-	k := lockKey{multi, conc}
+	k := lockKey{orca, multi, conc}
 	if s, ok := lockSlots[k]; ok {
-		return s
+		return lockMain[k], s
 	}
-	_, slot = orcas.Locked(orcas.L1Only, multi, conc)
-	lockSlots[k] = slot
+	base := orcas.L1L2
+	if orca == "l1only" {
+		base = orcas.L1Only
+	}
+	oc, slot := orcas.Locked(base, multi, conc)
+	lockSlots[k], lockMain[k] = slot, oc
+	return oc, slot
+}
+
+// lockedConsts returns the lock set id used by a locked configuration.
+func lockedSlot(cfg Cfg) uint32 {
+	_, slot := lockedMain(cfg.Orca, cfg.Lock == "multi", cfg.Conc)
 	return slot
 }
 
@@ -235,9 +247,12 @@ func (w *World) OrcaConst(port int) orcas.OrcaConst {
 	if w.Cfg.Lock == "none" {
 		return base
 	}
-	slot := lockedConsts(w.Cfg.Lock == "multi", w.Cfg.Conc)
-	// Both ports attach to the one existing lock set, as app/memproxy.go does for the batch port.
-	return orcas.LockedWithExisting(base, slot)
+	main, slot := lockedMain(w.Cfg.Orca, w.Cfg.Lock == "multi", w.Cfg.Conc)
+	if port == 1 {
+		// the batch port attaches to the main port's lock set, as app/memproxy.go does
+		return orcas.LockedWithExisting(base, slot)
+	}
+	return main
 }
 
 func (w *World) newHandler(tier int, kind string, store *fakemc.Store) (handlers.Handler, *fakemc.Conn) {
